@@ -212,7 +212,7 @@ func hostKind(h string) string {
 
 func TestCheck(t *testing.T) {
 	r := vp.New("C20", "exploration",
-		"URL round trip: nested loops over scheme x host x port x path (paths: every sequence of <=N symbols over all printable ASCII characters, 'é', '%2F', '%25', '//' after a leading '/'); URLs given as text and parsed with net/url: every printable ASCII character and 'é' written as a percent-escape in upper- and lower-case hex, alone, inside segments and in ordered pairs (the decoded path is what has to survive); a case is non-trivial when it has a port or a path; distinct = distinct (scheme,host,port,path). Helpers: every list of length <=4 over a 27-address alphabet (public, private, loopback, unspecified, localhost; the IP followed by tcp, udp, sctp, tls, http or nothing; http after tls/sni and before /p2p; ws / wss, which are not http) incl. nil and duplicates, all pairs of lists of length <=3 for equality; what FindHTTPAddrs and FilterPublic selected must read the same after the caller has overwritten its own list.",
+		"URL round trip: nested loops over scheme x host x port x path (paths: every sequence of <=N symbols over all printable ASCII characters, 'é', '%2F', '%25', '//' after a leading '/'); URLs given as text and parsed with net/url: every printable ASCII character and 'é' written as a percent-escape in upper- and lower-case hex, alone, inside segments and in ordered pairs (the decoded path is what has to survive); a case is non-trivial when it has a port or a path; distinct = distinct (scheme,host,port,path). Helpers: FindHTTPAddrs for every address made of 6 prefixes x {http, https, ws, wss, none} x every sequence of <=3 trailing components over {http-path (2 values), p2p, p2p-circuit}, alone and in 3 list shapes; every list of length <=4 over a 27-address alphabet (public, private, loopback, unspecified, localhost; the IP followed by tcp, udp, sctp, tls, http or nothing; http after tls/sni and before /p2p; ws / wss, which are not http) incl. nil and duplicates, all pairs of lists of length <=3 for equality; what FindHTTPAddrs and FilterPublic selected must read the same after the caller has overwritten its own list.",
 		"URLs are built as url.URL{Scheme,Host,Path} values, and (section 2b) parsed from text; hosts are limited to 3 IPv4, 3 IPv6 (no zone, not v4-mapped) and 3 DNS names",
 		"IPv6 hosts are compared as IP values, not as text",
 		"FilterPublic: link-local and other special ranges that are neither loopback, private (net.IP.IsPrivate) nor unspecified are accepted either way; nothing is required of nil entries",
@@ -448,7 +448,78 @@ var (
 	privateFiller = multiaddr.StringCast("/ip4/10.255.255.1/tcp/1")
 )
 
+// checkHTTPPosition: where in an address the http / https component stands is
+// irrelevant to "contains http or https": every address made of a prefix
+// (IP or DNS name, with or without tcp, tls, tls/sni), a middle component
+// (http, https, ws, wss or none) and every sequence of 0..3 trailing components
+// (http-path, p2p, p2p-circuit) that the multiaddr package accepts, alone and
+// in lists with other entries.
+func checkHTTPPosition(r *vp.Recorder) {
+	const pid = "12D3KooWBahVhXpN2F6NMjC4BDSNXLWnGtjHwcVbR2qJUK2xWx1J"
+	prefixes := []string{"/ip4/8.8.8.8", "/dns/example.com", "/ip4/8.8.8.8/tcp/443", "/dns4/example.com/tcp/443/tls", "/dns/example.com/tcp/443/tls/sni/example.com", "/ip6/2607:f8b0:4005:80a::200e/udp/443/quic-v1"}
+	middles := []string{"", "/http", "/https", "/ws", "/wss"}
+	trailers := []string{"/http-path/pub%2Fone", "/http-path/x", "/p2p/" + pid, "/p2p-circuit"}
+	var tails []string
+	var gen func(cur string, n int)
+	gen = func(cur string, n int) {
+		tails = append(tails, cur)
+		if n == 3 {
+			return
+		}
+		for _, t := range trailers {
+			gen(cur+t, n+1)
+		}
+	}
+	gen("", 0)
+	for _, pre := range prefixes {
+		for _, mid := range middles {
+			for _, tail := range tails {
+				text := pre + mid + tail
+				key := "http-position|" + text
+				if !r.Mine(key) {
+					continue
+				}
+				a, err := multiaddr.NewMultiaddr(text)
+				if err != nil {
+					r.Count("http_position_addresses_not_accepted_by_multiaddr", 1)
+					continue
+				}
+				r.Eval(key, tail != "")
+				isHTTP := mid == "/http" || mid == "/https"
+				for li, l := range [][]multiaddr.Multiaddr{{a}, {nonHTTPFiller, a}, {a, nil, a}, {multiaddr.StringCast("/ip4/1.1.1.1/tcp/443/https"), a, nonHTTPFiller}} {
+					want := 0
+					for _, x := range l {
+						if x == nil {
+							continue
+						}
+						if x.Equal(a) && isHTTP || strings.HasSuffix(x.String(), "/https") {
+							want++
+						}
+					}
+					var got []multiaddr.Multiaddr
+					if p, m := vp.Guard(func() { got = mautil.FindHTTPAddrs(append([]multiaddr.Multiaddr{}, l...)) }); p {
+						r.Violation("FindHTTPAddrs:panic", key, m, nil)
+						break
+					}
+					nA := 0
+					for _, g := range got {
+						if g != nil && g.Equal(a) {
+							nA++
+						}
+					}
+					if len(got) != want || (isHTTP && nA == 0) || (!isHTTP && nA != 0) {
+						r.Violation("FindHTTPAddrs:wrong-set:by-position-of-the-http-component", key, fmt.Sprintf("list shape %d: FindHTTPAddrs(%v) = %v; %s contains http or https: %v", li, l, got, text, isHTTP), nil)
+						break
+					}
+				}
+				r.Outcome(fmt.Sprintf("http-position-%v", isHTTP))
+			}
+		}
+	}
+}
+
 func checkHelpers(r *vp.Recorder) {
+	checkHTTPPosition(r)
 	n := len(addrAlphabet)
 	mas := make([]multiaddr.Multiaddr, n)
 	for i, a := range addrAlphabet {
